@@ -24,7 +24,7 @@ import vlib
 class C20bPart:
     extra_coq_targets = ["theories/Check/C20b.vo", "theories/Props/C20b.vo"]
     c20b_driver = dict(pkg="internal/servers/rtsp", test="TestVerifC20b", timeout=600)
-    c20b_n_quick, c20b_n_thorough, c20b_shard = 200, 6000, 100
+    c20b_n_quick, c20b_n_thorough, c20b_shard = 100, 6000, 100
 
     trusted_base_b = [
         "translator tools/gen/hooksites (go/ast, no type information): lists every hooks.OnXxx mention below internal/ "
